@@ -998,7 +998,30 @@ def r10_17(ctx):
               "pop_render_hook can return without having removed the last entry of self._render_hooks: after stop() the display's hook stays installed and every later print is rewritten around a frame that is no longer live")
 
 
-RULES = [r10_1, r10_2, r10_3, r10_4, r10_5, r10_6, r10_7, r10_8, r10_9, r10_10, r10_11, r10_12, r10_13, r10_14, r10_15, r10_16, r10_17]
+def r10_18(ctx):
+    ctx.rule("R10.18", "the last frame stays unless the display is transient: in Live.stop and Progress.stop every statement that erases the final frame (a console.control(..) whose argument comes from the live renderable's restore_cursor()) runs exactly under the fact `self.transient` - with the polarity reversed an ordinary display vanishes at stop() and a transient one stays on screen - and such a statement exists (a transient display must leave nothing)")
+    n = 0
+    for spec in ("live:Live", "progress:Progress"):
+        f = ctx.repo.cls(spec).method("stop")
+        if f is None:
+            raise AnchorVanished(f"{spec}.stop not found")
+        m = f.module
+        g = cfgmod.build(f.node)
+        sites = [nd for nd in g.stmt_nodes() if nd.kind == "stmt" and nd.stmt is not None and any(isinstance(c, ast.Call) and norm(c.func).endswith("restore_cursor") for c in ast.walk(nd.stmt))]
+        if not sites:
+            ctx.violation(f.fq, "restore_cursor()", f.where, f"{f.qualname} never erases the final frame: a transient display leaves its last frame on screen")
+            continue
+        for nd in sites:
+            n += 1
+            facts = {(norm(t), v) for t, v in g.branch_facts(nd.id)}
+            ok = ("self.transient", True) in facts or ("not self.transient", False) in facts
+            wrong = ("self.transient", False) in facts or ("not self.transient", True) in facts
+            ctx.check(ok and not wrong, f.fq, short(nd.stmt), f"{m.relpath}:{nd.lineno}", "the final frame is erased only for a transient display",
+                      f"`{short(nd.stmt)}` erases the final frame " + ("when the display is NOT transient" if wrong else "without the `self.transient` test") + ": after stop() an ordinary display has vanished (and a transient one is still there) - the screen does not end with the most recently refreshed frame")
+    ctx.floor(n, 2, "erase-after-stop sites")
+
+
+RULES = [r10_1, r10_2, r10_3, r10_4, r10_5, r10_6, r10_7, r10_8, r10_9, r10_10, r10_11, r10_12, r10_13, r10_14, r10_15, r10_16, r10_17, r10_18]
 
 
 def _xcheck(ctx):
